@@ -211,6 +211,17 @@ def load_known():
         return json.load(f).get('findings', [])
 
 
+def stage_tag(st):
+    return st['harness'] + ('' if st.get('variant', 'core') == 'core' else '@' + st['variant']) + st.get('tag_suffix', '')
+
+
+def stage_env(env, st):
+    e = dict(env)
+    for k, v in st.get('env', {}).items():
+        e[k] = str(v)
+    return e
+
+
 def replay_once(exe, prop, tape, env, timeout=300, case_timeout=120):
     try:
         r = run([exe, '--prop', prop, '--replay', tape, '--fail-dir', env['RSV_SCRATCH'], '--case-timeout', str(case_timeout)],
@@ -341,11 +352,11 @@ def _check(prop, tier, replay, spec, seed, jobs, t0, scratch, env, known):
     if replay:
         st = stages[0]
         base = os.path.basename(replay)
-        for s in stages:
-            tag = s['harness'] + ('' if s.get('variant', 'core') == 'core' else '@' + s['variant'])
+        for s in sorted(stages, key=lambda x: len(stage_tag(x))):
+            tag = stage_tag(s)
             if base.startswith(tag + '-') or ('/' + tag + '/') in replay:
                 st = s
-        v, out = replay_once(exes[(st['harness'], st.get('variant', 'core'))], prop, replay, env,
+        v, out = replay_once(exes[(st['harness'], st.get('variant', 'core'))], prop, replay, stage_env(env, st),
                              case_timeout=st.get('replay_case_timeout', 120))
         print(out)
         if failing(v, st):
@@ -361,7 +372,7 @@ def _check(prop, tier, replay, spec, seed, jobs, t0, scratch, env, known):
     for k in known:
         tp = os.path.join(VERIF, k['replay'])
         st = [s for s in stages if s['harness'] == k.get('harness', stages[0]['harness'])][0]
-        v, out = replay_once(exes[(st['harness'], st.get('variant', 'core'))], prop, tp, env,
+        v, out = replay_once(exes[(st['harness'], st.get('variant', 'core'))], prop, tp, stage_env(env, st),
                              case_timeout=st.get('replay_case_timeout', 120))
         if v == 'KNOWN':
             known_lines.append('KNOWN-FINDING: property=%s %s [%s]' % (prop, k['what'], k['key']))
@@ -376,12 +387,12 @@ def _check(prop, tier, replay, spec, seed, jobs, t0, scratch, env, known):
         if tier == 'quick' and st.get('thorough_only'):
             continue
         exe = exes[(st['harness'], st.get('variant', 'core'))]
-        tag = st['harness'] + ('' if st.get('variant', 'core') == 'core' else '@' + st['variant'])
+        tag = stage_tag(st)
         for tp in sorted(glob.glob(os.path.join(VERIF, 'replay', prop, tag, '*.tape'))):
-            v, out = replay_once(exe, prop, tp, env, case_timeout=st.get('replay_case_timeout', 120))
+            v, out = replay_once(exe, prop, tp, stage_env(env, st), case_timeout=st.get('replay_case_timeout', 120))
             n_replayed += 1
             if failing(v, st):
-                violations.append(dict(prop=prop, replay=tp, msg=out[-1500:], sample='', harness=st['harness'], variant=st.get('variant', 'core')))
+                violations.append(dict(prop=prop, replay=tp, msg=out[-1500:], sample='', tag=tag))
     # ---- generated campaigns ------------------------------------------------------
     for si, st in enumerate(stages):
         if tier == 'quick' and st.get('thorough_only'):
@@ -407,7 +418,7 @@ def _check(prop, tier, replay, spec, seed, jobs, t0, scratch, env, known):
             v['_len'] = os.path.getsize(v['replay'])
         except OSError:
             v['_len'] = 1 << 30
-        k = (v.get('harness'), ''.join(ch for ch in v.get('msg', '') if not ch.isdigit())[:80])
+        k = (v.get('tag'), ''.join(ch for ch in v.get('msg', '') if not ch.isdigit())[:80])
         if k not in best or v['_len'] < best[k]['_len']:
             best[k] = v
     violations = sorted(best.values(), key=lambda v: v['_len'])[:4]
@@ -415,19 +426,19 @@ def _check(prop, tier, replay, spec, seed, jobs, t0, scratch, env, known):
         tp = v['replay']
         st = None
         for s in stages:
-            if v.get('harness') == s['harness'] and v.get('variant', s.get('variant', 'core')) == s.get('variant', 'core'):
+            if v.get('tag') == stage_tag(s):
                 st = s
         st = st or stages[0]
         exe = exes.get((st['harness'], st.get('variant', 'core')))
         oks = 0
         outs = ''
         for _ in range(3):
-            vv, outs = replay_once(exe, prop, tp, env, case_timeout=st.get('replay_case_timeout', 120))
+            vv, outs = replay_once(exe, prop, tp, stage_env(env, st), case_timeout=st.get('replay_case_timeout', 120))
             if failing(vv, st):
                 oks += 1
         need = 3 if st.get('deterministic', True) else 1
         if oks >= need:
-            dst = os.path.join(VERIF, 'findings', prop, st['harness'] + ('' if st.get('variant', 'core') == 'core' else '@' + st['variant']) + '-' + os.path.basename(tp))
+            dst = os.path.join(VERIF, 'findings', prop, stage_tag(st) + '-' + os.path.basename(tp))
             if os.path.abspath(tp) != os.path.abspath(dst) and not tp.startswith(os.path.join(VERIF, 'replay')):
                 shutil.copyfile(tp, dst)
             else:
@@ -522,13 +533,12 @@ def run_rc_stage(prop, st, par, exe, seed, jobs, scratch, env, si):
                 with open(dst, 'wb') as fh:
                     fh.write(raw[4:4 + ln])
                 failures.append(dict(prop=prop, replay=dst, msg='harness crashed (exit %d): %s' % (rc, tail), sample='',
-                                     harness=st['harness'], variant=st.get('variant', 'core')))
+                                     tag=stage_tag(st)))
             else:
                 log('[rsv] worker %d exited with %d without an in-flight tape:\n%s' % (w, rc, tail))
     tot, cls_sum, cls_cases, known, samples, rule, fl = merge_stats(stats_files)
     for f in fl:
-        f['harness'] = st['harness']
-        f['variant'] = st.get('variant', 'core')
+        f['tag'] = stage_tag(st)
         failures.append(f)
     return dict(stage=st.get('name', st['harness']), engine='rapidcheck tape -> ' + st['harness'], evaluations=tot['evaluations'],
                 passed=tot['pass_'], failed=tot['fail'], discard=tot['discard'], inconclusive=tot['inconclusive'],
